@@ -91,4 +91,18 @@ Section Lay.
     destruct (gc_step sp limit e (oracle_of_layouts y sp limit e st key) st key) as [st1|st1 key1|]; [discriminate| |contradiction].
     specialize (IH ys' st1 key1 ltac:(lia)). destruct (gc_loop_l f sp limit e ys' st1 key1) as [[st2 tr2| |] os2]; cbn [fst] in *; try discriminate. contradiction.
   Qed.
+  Lemma gc_steps_inv n : forall os st key st' key', InvP st0 sp st -> Forall (oracle_ok st0 sp) os -> cleared sp s st key ->
+    gc_steps n sp limit e os st key = Some (st', key') -> InvP st0 sp st' /\ smono st st'.
+  Proof.
+    induction n as [|m IH]; intros os st key st' key' HI Hos Hc; cbn [gc_steps].
+    - intros [= <- _]. split; [exact HI|apply smono_refl].
+    - destruct os as [|o os']; [intros [= <- _]; split; [exact HI|apply smono_refl]|].
+      inversion Hos as [|? ? Ho Hos']; subst.
+      pose proof (gc_step_spec st0 sp Hwf limit s e Hlimit o st key HI Ho Hc) as G.
+      pose proof (gc_step_smono sp limit e o st key) as M.
+      destruct (gc_step sp limit e o st key) as [st1|st1 key1|]; [| |discriminate].
+      + intros [= <- _]. split; [apply G|exact M].
+      + destruct G as [G1 G2]. intros H. destruct (IH os' st1 key1 st' key' G1 Hos' G2 H) as [I1 I2].
+        split; [exact I1|eapply smono_trans; eassumption].
+  Qed.
 End Lay.
